@@ -182,17 +182,11 @@ class Tab:
         if len(pdf) != len(pent):
             nbad += 1
             self.bad("T7", "pentagonDirectionFaces:rows", "pentagonDirectionFaces has %d rows for %d pentagons" % (len(pdf), len(pent)), self.T.where("pentagonDirectionFaces"))
-        # loop bounds of the enumerators
-        for fn, bound, what in (("getRes0Cells", nb, "base cells"), ("getPentagons", nb, "base cells")):
-            f = self.m.fn(fn)
-            cmps = [i for i in f.all_insts() if i.op == "icmp" and any(o[0] == "c" for o in i.ops)]
-            consts = {ir.cint_signed(o) for i in cmps for o in i.ops if o[0] == "c"}
-            limit = {c for c in consts if c in (bound, bound - 1)}
-            if not limit:
-                nbad += 1
-                self.bad("T7", fn + ":bound", "%s does not loop over exactly %d %s (loop compares against %s)" % (fn, bound, what, sorted(consts)), f.where())
+        # (the loop bounds of getRes0Cells / getPentagons used to be compared with the table sizes here; that was a frozen-shape rule - a
+        #  behaviour-preserving rewrite of getPentagons over a 12-entry table raised a false alarm - and it is superseded by R-BITPROV
+        #  `enumerators`, which decides the exact contents both functions write)
         if not nbad:
-            self.ok("T7", 10, "pentagon set %s and the count %d agree across baseCellData, isBaseCellPentagonArr, pentagonDirectionFaces, the 127-rows, pentagonCount, res0CellCount=%d and the enumerator loop bounds" % (pent, len(pent), nb))
+            self.ok("T7", 10, "pentagon set %s and the count %d agree across baseCellData, isBaseCellPentagonArr, pentagonDirectionFaces, the 127-rows, pentagonCount and res0CellCount=%d" % (pent, len(pent), nb))
 
     # ------------------------------------------------------------- T3
     def T3(self):
